@@ -149,8 +149,8 @@ func wBool(b bool) *W {
 	}
 	return wSimple(20)
 }
-func wFloat64(f float64) *W { return &W{Maj: 7, Width: 8, Val: math.Float64bits(f)} }
-func wFloat32(f float32) *W { return &W{Maj: 7, Width: 4, Val: uint64(math.Float32bits(f))} }
+func wFloat64(f float64) *W    { return &W{Maj: 7, Width: 8, Val: math.Float64bits(f)} }
+func wFloat32(f float32) *W    { return &W{Maj: 7, Width: 4, Val: uint64(math.Float32bits(f))} }
 func wFloat16bits(b uint16) *W { return &W{Maj: 7, Width: 2, Val: uint64(b)} }
 func wRaw(b []byte) *W         { return &W{Raw: b} }
 
